@@ -387,7 +387,7 @@ def make_probes(ctx, types, npairs, only_ops=None, salt="probes"):
                     edge += [(2, T[1] - 1), (2, T[1]), (2 ** (T[1] // 2), 2), (2 ** (T[1] // 2) - 1, 2)]
                 edge = [(a, e) for a, e in dict.fromkeys(edge) if lo <= a <= hi and 0 <= e <= hi]
                 if ctx.tier == "quick":
-                    edge = rnd.sample(edge, min(len(edge), 12))
+                    edge = rnd.sample(edge, min(len(edge), 9))
                 for a, e in edge + prs[: max(npairs // 2, 4)]:
                     # run time needs one literal side: literal base and literal exponent variants
                     probes.append(P.Probe(cls, T, (a, e), f"{P.lit(a)} ** {P.lit(e)}", [tn], f"{P.lit(a)} ** x0", (e,), tn))
@@ -586,8 +586,8 @@ def model_exprs(p):
     o = [coqrun.hexlit(x) for x in p.ops]
     bin_ = {c[0]: c[2] for c in BINOPS}
     if p.form in bin_:
-        if p.form == "Pow" and (p.ops[1] > 300):
-            return None
+        if p.form == "Pow" and (p.ops[1] > 300 or abs(p.ops[0]).bit_length() * p.ops[1] > 2048):
+            return None  # astronomically out of range: no model evaluation (the paired comparison still runs)
         return f"enc (typed {ty} (fold_binop gP {bin_[p.form]} {o[0]} {o[1]})) ++ enco (arith_spec {ty} {bin_[p.form]} {o[0]} {o[1]})"
     cmp_ = {c[0]: c[2] for c in CMPS}
     if p.form in cmp_:
@@ -643,15 +643,25 @@ def run_probes(ctx, probes, cfgs, tag, with_model=True):
         extra = cfgs[2 + (k % (ncf - 2))] if ncf > 2 else None
         return base + ([extra] if extra is not None else [])
 
+    import time as _t
+    _t0 = _t.time()
     P.run_literal_side(probes, cfgs_for_batch, front, stats=stats)
-    P.run_runtime_side(probes, cfgs, front, stats=stats)
+    _t1 = _t.time()
+    # literal-operand pow functions are one run-time function per probe: fewer configurations for those
+    P.run_runtime_side([p for p in probes if p.form != "Pow"], cfgs, front, stats=stats)
+    P.run_runtime_side([p for p in probes if p.form == "Pow"], cfgs[:4] if len(cfgs) <= 10 else cfgs[:8], front, stats=stats)
+    _t2 = _t.time()
+    ctx.corr.setdefault("phase_seconds", {})
+    ctx.corr["phase_seconds"][tag] = {"literal_side": round(_t1 - _t0, 1), "runtime_side": round(_t2 - _t1, 1), "literal_frontend_rejects": stats.get("literal_rejected_by_frontend")}
     preds = {}
     if with_model:
         idx = [(i, model_exprs(p)) for i, p in enumerate(probes)]
         idx = [(i, e) for i, e in idx if e is not None]
         # group ~300 probe expressions per Coq list to keep the number of Eval commands small
         chunks = [idx[i:i + 300] for i in range(0, len(idx), 300)]
+        _t3 = _t.time()
         outs = coq_eval("c17probe" + tag, ["(" + " ++ ".join(f"({e})" for _, e in ch) + ")" for ch in chunks])
+        ctx.corr["phase_seconds"][tag]["model_predictions"] = round(_t.time() - _t3, 1)
         for ch, flat in zip(chunks, outs):
             po = pairs_out(flat, 2)
             assert len(po) == len(ch)
@@ -792,7 +802,11 @@ def run(ctx):
         cfgs = cfgs[:16]
     total = 0
     failing = 0
+    import time as _t
+    _ta = _t.time()
     build, info = part_proofs(ctx)
+    ctx.corr.setdefault("phase_seconds", {})["coq_build"] = round(_t.time() - _ta, 1)
+    _ta = _t.time()
     model_ok = build.get("gen") and (COQ / "C17" / "FoldModel.vo").exists() and (
         build["ok"] or not any(x in build.get("file", "") for x in ("GenFold", "FoldModel", "ArithSpec", "ConvSpec", "ConvModel")))
     tie_broken = []
@@ -803,6 +817,7 @@ def run(ctx):
         except RuntimeError as e:  # the model does not evaluate (e.g. a changed signature): treated as a broken tie
             tie_broken = [{"form": "model-evaluation", "expr": "-", "real": "-", "model": str(e)[-400:]}]
             model_ok = False
+    ctx.corr["phase_seconds"]["model_tie"] = round(_t.time() - _ta, 1)
     # paired probes: the property's own observation (independent of the Coq model)
     probes = make_probes(ctx, types, npairs) + make_misc_probes(ctx, npairs) + make_constant_probes(ctx, (types[:5] if ctx.tier == "quick" else types) + [(True, 16)], npairs)
     n, nf, mism = run_probes(ctx, probes, cfgs, "q", with_model=model_ok)
